@@ -50,6 +50,9 @@ func init() {
 				tag := uint64(c.Seed)<<32 | uint64(c.Index) | 1<<52
 				cfgs := []InstCfg{{Kind: "pollard"}, {"mapfull", []uint8{0, 5, 63}[c.Index%3]}, {"mappartial", []uint8{63, 0, 2}[c.Index%3]}}
 				s := genForestScenario(c.Rng, tag, cfgs, fGenOpts{Profile: prof, Rounds: 1 + c.Rng.Intn(3), Undo: true, PartialOps: true, ForceEmptyRootOverwrite: c.Index%4 == 0})
+				if c.Index%8 == 5 {
+					s.LeafMode = "readd"
+				}
 				c02Ops(c, s)
 				return
 			}
@@ -58,7 +61,11 @@ func init() {
 			if c.Suite == "tall" {
 				cfgs = []InstCfg{{Kind: "pollard"}, {"mapfull", 0}, {"mapfull", uint8(13 + c.Index%51)}, {"mappartial", 63}}
 			}
-			c02Check(c, histScenario{History: h, Cfgs: cfgs})
+			mode := ""
+			if c.Suite == "rand" && c.Index%8 == 5 {
+				mode = "readd"
+			}
+			c02Check(c, histScenario{History: h, Cfgs: cfgs, LeafMode: mode})
 		},
 		Replay: func(c *core.Ctx, raw json.RawMessage) {
 			var fs fScenario
@@ -232,6 +239,10 @@ func c02Check(c *core.Ctx, s histScenario) {
 	c.SetScenario(s)
 	fail := func(site, clause, trigger, detail string) { c.Violate(site, "setup:"+clause, trigger, detail) }
 	w := NewWorld(s.History.Tag, s.Cfgs)
+	w.SetLeafMode(s.LeafMode)
+	if s.LeafMode != "" {
+		c.Count("histories_with_leaf_mode_"+s.LeafMode, 1)
+	}
 	k := 4
 	if c.Tier == "thorough" {
 		k = 16
